@@ -38,7 +38,7 @@ def gen_cases(tier, seed, n_grammars, profiles=("general",), reprs=workload.REPR
                 "retype": rng.random() < 0.2,
             }
             yield case
-            if fixed_member and rk in ("stack", "dsge") and not d.get("_string_annotations") and not d.get("python"):
+            if fixed_member and rk in ("stack", "dsge", "sge") and not d.get("_string_annotations") and not d.get("python"):
                 # every hand-written shape ALSO under string annotations, for the representations that key what they keep
                 # by type objects (an extra case: the plain one above stays)
                 yield dict(case, desc=dict(d, _string_annotations=True, name=str(d.get("name", "g")) + "~str"), seed=case["seed"] + 1)
